@@ -180,7 +180,13 @@ def plan(tier, seed):
             if cname == "SCRG":
                 pre += ["ds in (0, 8)", "cs in (0, 7)", "role == 0 or (ds == 0 and cs == 0)", "p0 and p1", "m2 in (0, 2)"]
         if k == 4:
-            pre += ["el == 0", "m3 in (0, 1, 4, 6)", "m2 in (0, 1, 2, 5)"]
+            pre += ["el == 0", "m3 in (0, 1, 6)", "m2 in (0, 1, 5)", "m1 in (0, 3, 4)", "m0 in (0, 2, 6)", "not xa"]
+            if "role" in params:
+                pre += ["role in (0, 1, 3)"]
+        elif tier == "thorough":
+            pre += ["m0 in (0, 2, 4, 6)", "m1 in (0, 1, 3, 5)", "m2 in (0, 1, 2, 6)", "el < 2", "not xa"]
+            if u.name.endswith("SCRG"):
+                pre += ["ds in (0, 1, 8, 9, 10)", "cs in (0, 3, 5, 7)", "ds == 0 or cs == 0 or (ds == 8 and cs == 7)", "role in (0, 3, 6) or (ds == 0 and cs == 0)", "m0 in (0, 2, 6)"]
         units.append(Sel(name="relabel_" + u.name[4:], func=f"vp.props.C11:{f}", params=params, pre=pre, shard_by=u.shard_by,
                          timeout=u.timeout, nontrivial="m0 + m1 + m2 > 0"))
     return units
